@@ -310,7 +310,7 @@ func c01BaseCtx(tokens []string, conc int, b Bounds) *Scenario {
 			body := func() {
 				lib, peer, pipe := NewPipe(PipeOpts{Name: "srv", CloseUnblocksRecv: true})
 				h.pipe, h.peer = pipe, peer
-				base, cancel := context.WithCancel(context.Background())
+				base, cancel := cancelCauseCtx()
 				defer cancel()
 				srv := jrpc2.NewServer(anyAssigner{h.handler()}, &jrpc2.ServerOptions{Concurrency: conc, NewContext: func() context.Context { return base }})
 				h.srv = srv
